@@ -81,6 +81,7 @@ def _trailing(v, text):
 
 
 def corpus():
+    import prettyprinter as pp
     dd = collections.defaultdict(list)
     dd['a'].append(1)
     dd['b']
@@ -108,6 +109,9 @@ def corpus():
         [time.struct_time((1999, 12, 31, 23, 59, 59, 4, 365, 0))], os.terminal_size((80, 24)), sys.float_info,
         pathlib.PurePosixPath('//fileserver/projects/' + 'segment/' * 9 + 'end'),
         # a contained internal failure under a trailing comment, then ordinary trailing comments on the same printers
+        # comments of several words that have to be wrapped (longer than any page width used), next to values that print one short comment
+        [pp.comment('value', 'word ' * 30 + 'end'), 2], {'k': pp.comment([1], 'one two three four five six seven eight nine ten eleven twelve thirteen fourteen fifteen sixteen seventeen eighteen')},
+        pp.comment(1, 'short'), [pp.comment(2, 'a b'), pp.comment(3, 'c')],
         _trailing(BadLen([1, 2]), 'on a failing list'), _trailing([1, 2, 3], 'and so on'), _trailing({'a': 1}, 'dict comment'), _trailing((1, 2), 'tuple comment'),
         # same-named classes
         _PlainStatus(), _EnumStatus.OK, [_EnumStatus.FAIL, _PlainStatus()],
